@@ -144,32 +144,33 @@ def isExternalPkg (p : Option String) : Bool :=
 /-- `ImportNames[path]` -/
 def importName (path : String) : Option String := (env.imports.find? (·.1 == path)).map (·.2)
 
-/-- `ImportNames.TypeName`; `none` is the nil-package panic. `fuel` bounds pointer chains. -/
-def typeName : Nat → TyId → Option String
-  | 0, t => some (env.ty t).str
+/-- `ImportNames.TypeName`. `fuel` bounds pointer chains.  A named type without package (a
+universe type such as `error`) is printed by its bare name. -/
+def typeName : Nat → TyId → String
+  | 0, t => (env.ty t).str
   | fuel + 1, t =>
     match env.kind t with
-    | .pointer => (typeName fuel (env.ty t).elem).map ("*" ++ ·)
-    | .basic => some (env.ty t).name
+    | .pointer => "*" ++ typeName fuel (env.ty t).elem
+    | .basic => (env.ty t).name
     | .named =>
       match (env.ty t).pkgPath with
-      | none => none
+      | none => (env.ty t).name
       | some p =>
         match env.importName p with
-        | some n => some (n ++ "." ++ (env.ty t).name)
-        | none => some (env.ty t).name
-    | _ => some (env.ty t).str
+        | some n => n ++ "." ++ (env.ty t).name
+        | none => (env.ty t).name
+    | _ => (env.ty t).str
 
-def typeNameF (t : TyId) : Option String := env.typeName (env.tys.size + 1) t
+def typeNameF (t : TyId) : String := env.typeName (env.tys.size + 1) t
 
-/-- `ImportNames.IsExternal`; `none` is the nil-package panic -/
-def isExternal (t : TyId) : Option Bool :=
+/-- `ImportNames.IsExternal` -/
+def isExternal (t : TyId) : Bool :=
   let d := env.derefPtr t
   if env.isNamedType d then
     match (env.ty d).pkgPath with
-    | none => none
-    | some p => some (env.importName p).isSome
-  else some false
+    | none => false
+    | some p => (env.importName p).isSome
+  else false
 
 end Env
 
